@@ -27,7 +27,7 @@ _ASSUME = [
 PROPS = {
     "C15": dict(
         suite="erc20",
-        modules=["CantoVerif.Props.C15"],
+        modules=["CantoVerif.Props.C15", "CantoVerif.Props.C15Monitors"],
         theorems=[
             "CV.Erc20.registry_init", "CV.Erc20.registry_step", "CV.Erc20.registry_history", "CV.Erc20.registry_step_monitor",
             "CV.Erc20.regInvB_of_RegInv", "CV.Erc20.one_to_one", "CV.Erc20.lookups_agree", "CV.Erc20.lookup_sound",
@@ -35,26 +35,34 @@ PROPS = {
             "CV.Erc20.toggle_only_flag", "CV.Erc20.delete_removes_all", "CV.Erc20.convert_selfdestructed_deletes",
             "CV.Erc20.step_regChange", "CV.Erc20.RegChange.inv", "CV.Erc20.regInv_insert", "CV.Erc20.regInv_setPair",
             "CV.Erc20.regInv_delete", "CV.Erc20.regInv_reimport", "CV.Erc20.reimport_lookups", "CV.Erc20.exEnvOK",
+            # monitor links: the executable predicates the driver evaluates on the implementation are proved of the model's transitions
+            "CV.Erc20.c15_lookupsAgree_monitor", "CV.Erc20.c15_listEqReachable_monitor", "CV.Erc20.c15_registerExistingRejected_monitor",
+            "CV.Erc20.c15_registerAddsOne_monitor", "CV.Erc20.c15_toggleOnlyFlag_monitor", "CV.Erc20.c15_deleteRemovesAll_monitor",
+            "CV.Erc20.c15_othersKeepRegistry_monitor", "CV.Erc20.c15_grpcLookups_model_monitor",
         ],
         comps={"outcome", "resp", "reg", "nonce", "meta", "params", "evm", "token", "bank", "send"},
         assumptions=_ASSUME,
     ),
     "C14": dict(
         suite="erc20",
-        modules=["CantoVerif.Props.C14"],
+        modules=["CantoVerif.Props.C14", "CantoVerif.Props.C14Monitors"],
         theorems=[
             "CV.Erc20.msg_gate", "CV.Erc20.conv_ok_gate", "CV.Erc20.receiver_blocked_rejected", "CV.Erc20.module_receiver_rejected", "CV.Erc20.switches_stored",
             "CV.Erc20.third_party_send_disabled_rejected", "CV.Erc20.self_conversion_ignores_send_switch",
             "CV.Erc20.hook_gate_global", "CV.Erc20.hook_gate_pair", "CV.Erc20.hook_disabled_pair_frame",
             "CV.Erc20.hookTarget_pair_disabled", "CV.Erc20.hookTarget_not_to_module", "CV.Erc20.ordinary_transfers_unaffected",
             "CV.Erc20.gate_ok", "CV.Erc20.exec_eq_of_not_ok", "CV.Erc20.msg_gate_monitors",
+            # monitor links (Props/C14Monitors.lean)
+            "CV.Erc20.C14M.c14_moduleReceiver_monitor", "CV.Erc20.C14M.c14_moduleReceiver_needs_wiring", "CV.Erc20.C14M.c14_switchesStored_monitor",
+            "CV.Erc20.C14M.msg_gate_monitors_all", "CV.Erc20.C14M.c14_ordinaryTransfers_monitor", "CV.Erc20.C14M.c14_hookGate_monitor",
+            "CV.Erc20.C14M.c14_hookGate_monitor_tx", "CV.Erc20.C14M.c14_monitors_k", "CV.Erc20.C14M.c14_monitors_tx",
         ],
         comps={"outcome", "resp", "reg", "nonce", "meta", "params", "evm", "token", "bank", "send"},
         assumptions=_ASSUME,
     ),
     "C04": dict(
         suite="erc20",
-        modules=["CantoVerif.Props.C04"],
+        modules=["CantoVerif.Props.C04", "CantoVerif.Props.C04Monitors"],
         theorems=[
             "CV.later_failure_unchanged",
             "CV.Erc20.convert_failed_unchanged", "CV.Erc20.convert_failed_unchanged_script", "CV.Erc20.convert_failed_unchanged_fault",
@@ -65,6 +73,11 @@ PROPS = {
             "CV.Erc20.external_sender_debit_unchecked",
             "CV.Erc20.Token.coinNative_honest", "CV.Erc20.Token.erc20NativeCoin_honest", "CV.Erc20.Token.erc20NativeToken_honest",
             "CV.Erc20.Token.coinNativeERC20_honest", "CV.Bank.applyAll_flow",
+            # monitor links (Props/C04Monitors.lean): the seven executable predicates of C04 proved of the model's transitions
+            "CV.Erc20.C04M.c04_successExactBank_monitor", "CV.Erc20.C04M.c04_successExactToken_monitor",
+            "CV.Erc20.C04M.c04_successExactReported_monitor", "CV.Erc20.C04M.c04_noApproval_monitor", "CV.Erc20.C04M.c04_transferTrue_monitor",
+            "CV.Erc20.C04M.c04_internalFailureRejects_monitor", "CV.Erc20.C04M.c04_roundtrip_monitor",
+            "CV.Erc20.C04M.convertCoin_logged", "CV.Erc20.C04M.convertERC20_logged", "CV.Erc20.C04M.honest_codeLookupOk",
         ],
         comps={"outcome", "resp", "reg", "nonce", "meta", "params", "evm", "token", "bank", "send"},
         assumptions=_ASSUME,
@@ -79,7 +92,7 @@ _ASSUME3 = _ASSUME + [
 
 PROPS["C03"] = dict(
     suite="erc20e",
-    modules=["CantoVerif.Props.C03"],
+    modules=["CantoVerif.Props.C03", "CantoVerif.Props.C03Monitors"],
     theorems=[
         "CV.Erc20.Token.backing_step", "CV.Erc20.Token.backing_history", "CV.Erc20.Token.backing_hstep", "CV.Erc20.Token.backing_init",
         "CV.Erc20.Token.native_backing", "CV.Erc20.Token.external_backing", "CV.Erc20.Token.destroyed_only_grows_by_holder_burns",
@@ -87,6 +100,11 @@ PROPS["C03"] = dict(
         "CV.Erc20.Token.backing_coinPath", "CV.Erc20.Token.backing_erc20Path", "CV.Erc20.Token.backing_hookLog",
         "CV.Erc20.Token.backing_transfer", "CV.Erc20.Token.backing_delete", "CV.Erc20.Token.backing_confined",
         "CV.Erc20.Token.backing_registry",
+        # monitor links (Props/C03Monitors.lean): keeper operations / holder transactions / deployments, batches, self-destructs
+        "CV.Erc20.Token.c03_nativeExact_monitor", "CV.Erc20.Token.c03_nativeGe_monitor", "CV.Erc20.Token.c03_external_monitor",
+        "CV.Erc20.Token.c03_nativeExact_batch_monitor", "CV.Erc20.Token.c03_nativeGe_batch_monitor", "CV.Erc20.Token.c03_external_batch_monitor",
+        "CV.Erc20.Token.c03_nativeExact_sd_monitor", "CV.Erc20.Token.c03_nativeGe_sd_monitor", "CV.Erc20.Token.c03_external_sd_monitor",
+        "CV.Erc20.Token.evmTxBatch_single", "CV.Erc20.Token.exH_backing",
     ],
     comps={"outcome", "resp", "reg", "nonce", "meta", "params", "evm", "token", "bank", "send"},
     assumptions=_ASSUME3,
